@@ -44,6 +44,10 @@ def variants(cfg, tier):
          # later range-limited sync that saved the state without reaching its stripes
          ("killed-after-parity-rewritten", [("write", "d2", "B", 900, 0), ("cmd", "sync", "--test-kill-after-sync"),
                                             ("write", "d2", "B", 900, 1), ("cmd", "sync", "-B", "1")])]
+    if cfg.levels >= 2 or tier == "thorough":
+        # a replaced file whose stripes hold no block of any other disk (beyond the end of the other disks), still pending
+        v += [("replaced-tail-beyond-other-disks", [("write", "d2", "F", 2048, 0), ("write", "d2", "T", 2048, 0), ("cmd", "sync"),
+                                                    ("rm", "d2", "T"), ("write", "d2", "T2", 2048, 0), ("cmd", "sync", "-B", "1")])]
     if tier == "thorough":
         v += [("copy-partly-synced", [("cp", "d1", "dir/M", "d2", "dir/M"), ("cmd", "sync", "-B", "1")]),
               ("killed-after-parity", [("write", "d2", "B", 900, 0), ("cmd", "sync", "--test-kill-after-sync")])]
